@@ -139,6 +139,8 @@ pub struct Monitor {
     op_index: u32,
     /// canary mode: everything is accepted regardless of shard / filter, nothing is merged
     pub scratch: bool,
+    /// multiplier of the quick-tier sample counts (engines whose quick tier is far below its time budget raise it)
+    pub quick_scale: u64,
 }
 
 impl Monitor {
@@ -161,10 +163,12 @@ impl Monitor {
             extra: BTreeMap::new(),
             op_index: 0,
             scratch: false,
+            quick_scale: 1,
         }
     }
     pub fn scratch(&self) -> Monitor {
         let mut m = Monitor::new(&self.prop, &self.config, &self.tier, self.seed, (0, 1), None);
+        m.quick_scale = self.quick_scale;
         m.scratch = true;
         m
     }
@@ -176,7 +180,7 @@ impl Monitor {
         if self.thorough() {
             thorough
         } else {
-            quick
+            quick * self.quick_scale
         }
     }
     /// Seed for a (type, op) random stream.
